@@ -501,9 +501,12 @@ class C27(Property):
             d['values'] = [enc(x) for x in rng.sample(pool, rng.randint(2, 3))]
         elif kind in ('bounds', 'types_bounds'):
             lo = rng.choice([None, -1, 0, 1, 0.5])
-            hi = rng.choice([None, 1, 2, 3, 2.5, 5])
+            hi = rng.choice([None, 1, 2, 3, 2.5, 5, 0, 0, -1])
             if lo is None and hi is None:
                 hi = 3
+            if lo is not None and hi is not None and lo > hi:
+                # a zero or negative upper bound: keep the interval non-empty
+                lo = rng.choice([None, hi - 2, hi])
             d['lower'] = None if lo is None else rat(lo)
             d['upper'] = None if hi is None else rat(hi)
             d['float_bounds'] = rng.random() < 0.3
